@@ -113,7 +113,7 @@ func (c CodecProto) ReadNext(b []byte, r io.Reader, limit int) ([]byte, int, err
 			}
 			n, err := r.Read(b[len(b):cap(b)])
 			b = b[:len(b)+n]
-			if err != nil {
+			if err != nil && i >= len(b) {
 				return b, 0, err
 			}
 		}
@@ -210,7 +210,7 @@ func (c CodecJSON) ReadNext(b []byte, r io.Reader, limit int) ([]byte, int, erro
 			}
 			n, err := r.Read(b[len(b):cap(b)])
 			b = b[:len(b)+n]
-			if err != nil {
+			if err != nil && i >= len(b) {
 				return b, 0, err
 			}
 		}
